@@ -613,7 +613,7 @@ func main() {
 	f := gen.ParseFlags()
 	w := gen.NewWriter(f.Out)
 	defer w.Close()
-	bin := gen.BuildIndexserver()
+	bin := gen.BuildIndexserver("c30")
 	proc := gen.StartLineProc(bin, "ZOEKT_VERIF_DRIVER=c30")
 	defer proc.Close()
 	rn := &runner{w: w, proc: proc}
